@@ -487,7 +487,12 @@ class _Boom(Exception):
     """The callback's own exception class: nothing in vgi_rpc catches or expects it."""
 
 
+class _Interrupt(BaseException):
+    """What Ctrl-C / SystemExit look like to the client: a BaseException, which ``except Exception`` does not see."""
+
+
 _EXC = {
+    "interrupt": lambda: _Interrupt("callback"),
     "boom": lambda: _Boom("callback"),
     "keyerror": lambda: KeyError("callback"),
     "oserror": lambda: OSError("callback"),
@@ -520,7 +525,7 @@ def _borrower(abnormal_bias: bool) -> Any:
         else:
             raise_at = draw(st.one_of(st.just([]), st.lists(st.integers(0, 5), max_size=2, unique=True).map(sorted)))
         return {"steps": steps, "raise_at": raise_at,
-                "exc": draw(st.sampled_from(["boom", "boom", "boom", "keyerror", "oserror", "stopiter", "rpcerror"])),
+                "exc": draw(st.sampled_from(["boom", "boom", "boom", "interrupt", "interrupt", "keyerror", "oserror", "stopiter", "rpcerror"])),
                 "on_exc": draw(st.sampled_from(["propagate", "stop"])),
                 "kill_after": draw(st.sampled_from([False] * 7 + [True]))}
 
@@ -545,7 +550,7 @@ def _reuse_cases(worker: str) -> Any:
 def _grid_cases() -> list[dict[str, Any]]:
     """Small two-borrower histories: one (optionally after a cleanly finished stream) step × callback behaviour, then a prober.
 
-    Dense around every read position: callback raising at the first / second / first two / every log line, five
+    Dense around every read position: callback raising at the first / second / first two / every log line, six
     exception classes.  Cases in which the callback would never fire are left out.
     """
     prober = {"steps": [["unary", 1], ["stream", "gen", 1, 1, 0, 0, -1, 1, "exhaust"]], "raise_at": [], "exc": "boom",
@@ -566,7 +571,7 @@ def _grid_cases() -> list[dict[str, Any]]:
     for step in steps:
         for prefix in ([], [["stream", "gen", 1, 0, 0, 0, -1, 0, "exhaust"]]):
             for raise_at in ([0], [1], [0, 1], [0, 1, 2, 3, 4, 5, 6, 7]):
-                for exc in ("boom", "keyerror", "oserror", "stopiter", "rpcerror"):
+                for exc in ("boom", "interrupt", "keyerror", "oserror", "stopiter", "rpcerror"):
                     n += 1
                     first = {"steps": [*prefix, step], "raise_at": raise_at, "exc": exc,
                              "on_exc": "stop" if n % 2 else "propagate", "kill_after": False}
@@ -756,7 +761,7 @@ def _own(tag: str, b: _Borrow) -> bool:
 def _classify(b: _Borrow, cb0: int, j: int, phase: str, e: BaseException) -> tuple[str, bool]:
     """(status, certain) of a step that ended with exception ``e`` in ``phase``."""
     if b.cb_raised > cb0:  # the callback raised during this step
-        certain = e is b.cb_exc and isinstance(e, (_Boom, KeyError)) and phase != "open"
+        certain = e is b.cb_exc and isinstance(e, (_Boom, KeyError, _Interrupt)) and phase != "open"
         return f"{phase}_interrupted", certain
     msg = f"step {j} {phase}: {type(e).__name__}: {str(e)[:120]}"
     if b.clean_so_far():
@@ -783,7 +788,7 @@ def _unary(svc: Any, b: _Borrow, j: int, step: list[Any]) -> _Step:
     cb0 = b.cb_raised
     try:
         r = svc.echo(tag=f"{b.tag}.{j}", logs=int(step[1]))
-    except Exception as e:
+    except (Exception, _Interrupt) as e:
         return _classify(b, cb0, j, "unary", e), e
     b.seen.append(str(r))
     # the callback raised, yet the call returned: the client swallowed the exception somewhere
@@ -799,7 +804,7 @@ def _stream(svc: Any, b: _Borrow, j: int, step: list[Any]) -> _Step:
         kw["count"] = int(count)
     try:
         ses = getattr(svc, kind)(**kw)
-    except Exception as e:
+    except (Exception, _Interrupt) as e:
         return _classify(b, cb0, j, "header" if kind == "genh" else "open", e), e
     if kind == "genh":
         b.seen.append(str(ses.header.tag))
@@ -839,14 +844,14 @@ def _stream(svc: Any, b: _Borrow, j: int, step: list[Any]) -> _Step:
                 ses.cancel()
             elif end == "leave":
                 status = ("stream_left_open", True)
-    except Exception as e:
+    except (Exception, _Interrupt) as e:
         status, err = _classify(b, cb0, j, phase, e), e
     if end == "with":  # what `with session:` does on the way out, exception or not
         try:
             ses.close()
             if err is not None:
                 status = (status[0] + "_then_closed", False)  # cut short, then closed: may be back on a boundary
-        except Exception as e2:
+        except (Exception, _Interrupt) as e2:
             status = _classify(b, cb0, j, "close", e2)
             err = e2
     if err is None and status[0] == "clean" and b.cb_raised > cb0:
@@ -954,13 +959,13 @@ def run_reuse(case: dict[str, Any]) -> Outcome:
                     last_holder[wid] = b
                     try:
                         _run_steps(svc, b)
-                    except Exception as e:  # policy "propagate": already classified by the step interpreter
+                    except (Exception, _Interrupt) as e:  # policy "propagate": already classified by the step interpreter
                         propagated = e
                         b.abnormal = True
                         raise
             except _BodyError:
                 pass
-            except Exception as e:
+            except (Exception, _Interrupt) as e:
                 if e is not propagated:  # raised by connect() itself (enter or exit), not by the script
                     raise
             if hung["flag"]:
